@@ -16,6 +16,7 @@ import (
 
 	"github.com/jcmturner/gokrb5/v8/client"
 	"github.com/jcmturner/gokrb5/v8/config"
+	"github.com/jcmturner/gokrb5/v8/types"
 )
 
 // ---- the part that runs under the race detector (a separate binary built with -race) ----
@@ -65,6 +66,27 @@ func TestC11Race(t *testing.T) {
 		stop := time.Now().Add(dur)
 		var mu sync.Mutex
 		got, bad := 0, 0
+		// pairs the callers keep: they stay the pairs the KDC issued whatever the client does later (Destroy
+		// in another goroutine in particular)
+		type heldPair struct {
+			id  int
+			key types.EncryptionKey
+			spn string
+		}
+		var held []heldPair
+		recheck := func(when string) {
+			mu.Lock()
+			defer mu.Unlock()
+			sim.mu.Lock()
+			defer sim.mu.Unlock()
+			for _, h := range held {
+				if X(sim.tickets[h.id-1].key.KeyValue) != X(h.key.KeyValue) {
+					bad++
+					fmt.Printf("C11-PAIR-MISMATCH spn=%s ticket=%d the key a caller holds changed %s\n", h.spn, h.id, when)
+					break
+				}
+			}
+		}
 		for g := 0; g < 8; g++ {
 			wg.Add(1)
 			go func(g int) {
@@ -96,6 +118,8 @@ func TestC11Race(t *testing.T) {
 						if !ok {
 							bad++
 							fmt.Printf("C11-PAIR-MISMATCH spn=%s ticket=%d\n", spn, id)
+						} else if len(held) < 300 {
+							held = append(held, heldPair{id, key, spn}) // the key as the caller holds it (not a copy)
 						}
 						mu.Unlock()
 					}
@@ -118,7 +142,19 @@ func TestC11Race(t *testing.T) {
 					for i := 0; i < 6; i++ {
 						switch (g + i) % 4 {
 						case 0:
-							c2.GetServiceTicket(spns[(g+i)%len(spns)])
+							spn := spns[(g+i)%len(spns)]
+							if tkt, key, err := c2.GetServiceTicket(spn); err == nil {
+								var id int
+								fmt.Sscanf(string(tkt.EncPart.Cipher), "TKT:%d", &id)
+								sim.mu.Lock()
+								ok := id >= 1 && id <= len(sim.tickets) && X(sim.tickets[id-1].key.KeyValue) == X(key.KeyValue)
+								sim.mu.Unlock()
+								mu.Lock()
+								if ok && len(held) < 600 {
+									held = append(held, heldPair{id, key, spn})
+								}
+								mu.Unlock()
+							}
 						case 1:
 							c2.IsConfigured()
 						case 2:
@@ -137,6 +173,40 @@ func TestC11Race(t *testing.T) {
 			}()
 			wg3.Wait()
 			c2.Destroy()
+			recheck("after Destroy of the client it came from")
+		}
+		// the same without any timing: a client hands out pairs, another goroutine destroys it, the pairs the
+		// callers hold are still the pairs the KDC issued
+		{
+			c3 := client.NewWithPassword(c09User, "TEST.GOKRB5", clientPassword, cfg, client.DisablePAFXFAST(true))
+			if err := c3.Login(); err == nil {
+				n0 := len(held)
+				for _, spn := range spns[:4] {
+					for _, cached := range []bool{false, true} {
+						tkt, key, err := c3.GetServiceTicket(spn)
+						if cached {
+							var ok bool
+							tkt, key, ok = c3.GetCachedTicket(spn)
+							if !ok {
+								continue
+							}
+						} else if err != nil {
+							continue
+						}
+						var id int
+						fmt.Sscanf(string(tkt.EncPart.Cipher), "TKT:%d", &id)
+						if id >= 1 && id <= len(sim.tickets) {
+							held = append(held, heldPair{id, key, spn})
+						}
+					}
+				}
+				recheck("before Destroy (as returned)")
+				done := make(chan struct{})
+				go func() { c3.Destroy(); close(done) }()
+				<-done
+				recheck("after Destroy of the client it came from (no other activity)")
+				fmt.Printf("C11-STATS held-pairs checked=%d\n", len(held)-n0)
+			}
 		}
 		var wg2 sync.WaitGroup
 		for g := 0; g < 4; g++ {
@@ -156,6 +226,7 @@ func TestC11Race(t *testing.T) {
 		}()
 		wg2.Wait()
 		cl.Destroy()
+		recheck("after Destroy of the shared client")
 		fmt.Printf("C11-STATS shared-client pairs=%d mismatched=%d requests=%d\n", got, bad, len(sim.log))
 	})
 	// S3: a TGT that is nearly used up when it is issued (authenticated 4 minutes ago, 30 s left): the first
